@@ -53,7 +53,12 @@ def gen_case(rng, tier):
             act = rng.choice(["get_run_func", "get_run_func", "run", "get_jacobian_func"]) if i < len(models) - 1 else rng.choice(["get_run_func", "run"])
             st = {"model": i, "action": act, "vectorize": rng.random() < 0.4, "clear": rng.choice([True, False, False]), "in_place": rng.choice([True, False]),
                   "fname": rng.choice(["vf", "vf", f"vf{i}"]), "points": [{p: C.q2s(F(rng.randint(-3, 3), rng.choice([1, 2]))) for p in sp} for _ in range(2)]}
+            if act == "get_run_func" and rng.random() < 0.3:
+                st["decorate"] = True          # user decorator (negates the vector field); the undecorated twin may be compiled before/after
             if rng.random() < 0.3:
+                st["yaml"] = True              # the model is written to ymod/model.yaml (same path for all models of the history) and loaded from there
+            if rng.random() < 0.3 and not st.get("yaml"):
+                # (update_var on a template that came out of template_cache is the known finding C13-yaml-cache-mutated, probed separately)
                 cand = sorted(M.const_paths(flat))
                 if cand:
                     st["update_var"] = {rng.choice(cand): C.q2s(F(rng.randint(-5, 5)))}
@@ -85,14 +90,32 @@ def do_step(st, models, store):
     from pyrates import clear_frontend_caches, clear
     if st["action"] == "clear_frontend_caches":
         clear_frontend_caches()
+        store["__cleared_since_yaml"] = True
         return {"done": True}
     if st["action"] == "clear_model":
         c = store.get(st["model"])
         if c is not None:
             clear(c)
+            store["__cleared_since_yaml"] = True
         return {"done": True}
     mdl = models[st["model"]]
-    c, ops, nts = M.build_pyrates(mdl)
+
+    def build():
+        if st.get("yaml"):
+            from pyrates import CircuitTemplate
+            from .c15_e2e import mdl_to_yaml
+            os.makedirs("ymod", exist_ok=True)
+            prev = store.get("__yaml_text")
+            text = mdl_to_yaml(mdl)
+            if prev is not None and prev != text and not store.get("__cleared_since_yaml", True):
+                # the documented contract: templates are cached by path until clear()/clear_frontend_caches(); do not rewrite the file in between
+                return M.build_pyrates(mdl)[0]
+            open("ymod/model.yaml", "w").write(text)
+            store["__yaml_text"] = text
+            store["__cleared_since_yaml"] = False
+            return CircuitTemplate.from_yaml(os.path.join(os.getcwd(), "ymod", "model", mdl["circuit"]["name"]))
+        return M.build_pyrates(mdl)[0]
+    c = build()
     store[st["model"]] = c
     if st.get("update_var"):
         c.update_var(node_vars={k: float(F(v)) for k, v in st["update_var"].items()})
@@ -101,12 +124,18 @@ def do_step(st, models, store):
     if st["action"] in ("get_run_func", "get_jacobian_func"):
         if st["action"] == "get_jacobian_func":
             c.get_jacobian_func("jac_" + st["fname"], step_size=1e-3, vectorize=False, float_precision="float64", verbose=False, in_place=False, clear=st["clear"])
-            c, ops, nts = M.build_pyrates(mdl)
+            c = build()
             store[st["model"]] = c
             if st.get("update_var"):
                 c.update_var(node_vars={k: float(F(v)) for k, v in st["update_var"].items()})
+        kw = {}
+        if st.get("decorate"):
+            kw["decorator"] = lambda f: (lambda t, y, *a: -1.0 * np.array(f(t, y, *a)))
         func, args, names, smap = c.get_run_func(st["fname"], step_size=1e-3, vectorize=False, float_precision="float64", verbose=False,
-                                                 in_place=st["in_place"], clear=st["clear"])
+                                                 in_place=st["in_place"], clear=st["clear"], **kw)
+        if st.get("decorate"):
+            inner = func
+            func = lambda t, y, *a: -1.0 * np.array(inner(t, y, *a))        # undo the known decorator: the observable is the model's field
         return {"func": (func, args, names, smap)}
     if st["action"] == "run":
         r = c.run(simulation_time=2.0, step_size=0.5, solver="euler", outputs={f"v{j}": p for j, p in enumerate(sp)}, vectorize=st["vectorize"],
@@ -171,6 +200,24 @@ def impl_alone(args):
                 return eval_func(ob["func"], st["points"]) if "func" in ob else ob
             except Exception as e:
                 return {"error": type(e).__name__, "msg": str(e)[:300]}
+
+
+def probe_yaml_cache_mutation(_):
+    """from_yaml -> update_var -> from_yaml(same path) without clear(): does the second load show the first one's update?"""
+    from pyrates import CircuitTemplate
+    with M.Scratch():
+        with warnings.catch_warnings():
+            warnings.simplefilter("ignore")
+            os.makedirs("ymod", exist_ok=True)
+            open("ymod/m.yaml", "w").write("%YAML 1.2\n---\nop:\n  base: OperatorTemplate\n  equations:\n    - \"x' = -a*x\"\n  variables:\n    x: output(1.0)\n    a: 2.0\n"
+                                          "n:\n  base: NodeTemplate\n  operators:\n    - op\nc:\n  base: CircuitTemplate\n  nodes:\n    p: n\n  edges: []\n")
+            path = os.path.join(os.getcwd(), "ymod", "m", "c")
+            c1 = CircuitTemplate.from_yaml(path)
+            c1.update_var(node_vars={"p/op/a": 7.0})
+            c2 = CircuitTemplate.from_yaml(path)
+            f, args, names, smap = c2.get_run_func("pv", step_size=1e-3, vectorize=False, float_precision="float64", verbose=False, in_place=False, clear=True)
+            a = float(np.asarray(args[list(names).index("p/op/a")]))
+            return {"a_seen_by_second_load": a}
 
 
 def norm(ob):
@@ -252,6 +299,13 @@ def check(tier, seed, replay=None):
         else:
             rep.validated()
     drv.close()
+    pr = C.run_forked(probe_yaml_cache_mutation, [0])[0] if not replay else {}
+    rep.count("probe-yaml-cache-mutation", None, n=1)
+    if pr.get("a_seen_by_second_load") not in (None, 2.0):
+        if "C13-yaml-cache-mutated" in active_kf:
+            rep.known_finding("C13-yaml-cache-mutated: from_yaml returns the cached template object; update_var on it is seen by every later from_yaml of the same path until clear()")
+        else:
+            bad.append(({"probe": "yaml-cache-mutation"}, [{"kind": "second from_yaml shows the first load's update_var", "observed": pr}]))
     rep.sample({"steps": [{k: v for k, v in st.items() if k != "points"} for st in cases[-1]["steps"]], "n_models": len(cases[-1]["models"])})
     rep.cov["streams"]["histories_with_history_dependent_results"] = len(bad)
     if bad:
